@@ -296,7 +296,7 @@ def render(toks, rng, layout=True):
                 elif k == 15:
                     sep = " --[[ c" + rng.choice(["", "\n", "] ", " ]=] "]) + "]] "
                 elif k == 16:
-                    sep = "--[==[ ]] \r\n ]=] ]==]"
+                    sep = " --[==[ ]] \r\n ]=] ]==]"
                 elif k == 17:
                     sep = "\t \n  "
                 else:
@@ -601,7 +601,7 @@ def check_errors(ck, gvh, oracle, tier, st):
     # the same corruptions through load(): the message must carry the line
     ll = []
     for i, c in enumerate(cases):
-        ll.append("c%d %s chunk=chunk" % (i, hexsrc("return " + c["src"])))
+        ll.append("c%d %s chunk=chunk" % (i, hexsrc("return (" + c["src"] + ")")))
     lout = vlib.run_lines_resilient(gvh, ["lua"], ll, per_case_timeout=30)
     nerr = 0
     for i, c in enumerate(cases):
@@ -638,7 +638,12 @@ def check_errors(ck, gvh, oracle, tier, st):
         lm = re.search(r" E:([0-9a-f]+|-) ", lout[i])
         msg = bytes.fromhex(lm.group(1)).decode("latin-1") if lm and lm.group(1) != "-" else ""
         lline = re.match(r"^chunk:(\d+):", msg)
-        if gl != want_line or not lout[i].split(" ")[1] == "compile_error" or not lline or int(lline.group(1)) != want_line:
+        # inside  return ( … )  the expression is parsed in the same context as by ParseExp, except that a stray ')'
+        # closes the wrapper: those cases are compared on ParseExp only
+        in_load = not (idx < len(c["toks"]) and c["toks"][idx] == ")")
+        ck.count("d:load-compared" if in_load else "d:load-skipped-rparen")
+        load_ok = (not in_load) or (lout[i].split(" ")[1] == "compile_error" and lline and int(lline.group(1)) == want_line)
+        if gl != want_line or not load_ok:
             st["go_ne_s"] += 1
             if st["go_ne_s"] <= 5:
                 rep["kind"] = "Go!=S"
